@@ -6,6 +6,7 @@ import (
 
 	"github.com/pion/interceptor"
 	"github.com/pion/interceptor/internal/cc"
+	"github.com/pion/interceptor/pkg/rtpfb"
 	"github.com/pion/interceptor/verifharness/kit"
 	"github.com/pion/rtcp"
 	"github.com/pion/rtp"
@@ -23,7 +24,7 @@ func TestRegressDeltaConsumedForUnknownPacket(t *testing.T) {
 	}
 	fb := &rtcp.TransportLayerCC{BaseSequenceNumber: 0, PacketStatusCount: 3, ReferenceTime: 0,
 		PacketChunks: []rtcp.PacketStatusChunk{&rtcp.RunLengthChunk{Type: rtcp.TypeTCCRunLengthChunk, PacketStatusSymbol: rtcp.TypeTCCPacketReceivedSmallDelta, RunLength: 3}},
-		RecvDeltas: []*rtcp.RecvDelta{{Type: rtcp.TypeTCCPacketReceivedSmallDelta, Delta: 1000}, {Type: rtcp.TypeTCCPacketReceivedSmallDelta, Delta: 2000}, {Type: rtcp.TypeTCCPacketReceivedSmallDelta, Delta: 4000}}}
+		RecvDeltas:   []*rtcp.RecvDelta{{Type: rtcp.TypeTCCPacketReceivedSmallDelta, Delta: 1000}, {Type: rtcp.TypeTCCPacketReceivedSmallDelta, Delta: 2000}, {Type: rtcp.TypeTCCPacketReceivedSmallDelta, Delta: 4000}}}
 	acks, err := ad.OnTransportCCFeedback(t0, fb)
 	if err != nil {
 		t.Fatal(err)
@@ -39,4 +40,45 @@ func TestRegressDeltaConsumedForUnknownPacket(t *testing.T) {
 		}
 	}
 	t.Fatalf("number 2 not acknowledged")
+}
+
+// TestRegressFirstPacketNotReportedBeforeAnyAck: one packet sent on a non-TWCC stream, then an RFC 8888 feedback that only
+// covers a sequence number that was never sent: the report must not name the packet (it is outside the declared range),
+// and a later feedback that acknowledges it must be reported.
+func TestRegressFirstPacketNotReportedBeforeAnyAck(t *testing.T) {
+	f, _ := rtpfb.NewInterceptor()
+	ic, _ := f.NewInterceptor("")
+	defer kit.BoundedClose(ic.Close)
+	w := ic.BindLocalStream(&interceptor.StreamInfo{SSRC: 900}, &kit.RTPSink{})
+	src := &kit.ByteSource{}
+	reader := ic.BindRTCPReader(src)
+	if _, err := w.Write(&rtp.Header{Version: 2, SSRC: 900, SequenceNumber: 0}, []byte{1}, nil); err != nil {
+		t.Fatal(err)
+	}
+	read := func(begin uint16, received bool) []rtpfb.PacketReport {
+		raw, _ := rtcp.Marshal([]rtcp.Packet{&rtcp.CCFeedbackReport{SenderSSRC: 1, ReportTimestamp: 1 << 16, ReportBlocks: []rtcp.CCFeedbackReportBlock{{
+			MediaSSRC: 900, BeginSequence: begin, MetricBlocks: []rtcp.CCFeedbackMetricBlock{{Received: received, ArrivalTimeOffset: 1}},
+		}}}})
+		src.Push(raw)
+		_, attr, err := reader.Read(make([]byte, 1500), interceptor.Attributes{})
+		if err != nil {
+			t.Fatal(err)
+		}
+		if v := attr.Get(rtpfb.CCFBAttributesKey); v != nil {
+			return v.(rtpfb.Report).PacketReports //nolint:forcetypeassert
+		}
+
+		return nil
+	}
+	fail := func(msg string) {
+		kit.WriteReplay("TestRegressFirstPacketNotReportedBeforeAnyAck", []byte(`{"sent":[{"ssrc":900,"seq":0}],"feedback":[{"begin":1,"received":[false]},{"begin":0,"received":[true]}]}`))
+		t.Fatal(msg)
+	}
+	if prs := read(1, false); len(prs) != 0 {
+		fail("a feedback declaring only the never-sent number 1 produced a report naming the packet with number 0")
+	}
+	prs := read(0, true)
+	if len(prs) != 1 || !prs[0].Arrived || prs[0].RTPSequenceNumber != 0 {
+		fail("the feedback acknowledging number 0 as received did not produce a report saying so")
+	}
 }
